@@ -191,6 +191,7 @@ func c10Programs(tier string) []*Spec {
 		{"triggered", 3, []Op{{K: "incr", N: 1}, {K: "incr", N: 2}, {K: "cur"}, {K: "comp"}, {K: "refill", N: 1}}},
 		{"terminal", 3, []Op{{K: "incr", N: 2}, {K: "abort"}, {K: "abrt"}, {K: "comp"}, {K: "cur"}}},
 		{"trigger", 0, []Op{{K: "incr", N: 1}, {K: "trigger"}, {K: "settotal", N: 2, F: true}, {K: "comp"}, {K: "cur"}, {K: "id"}}},
+		{"adopt", 0, []Op{{K: "incr", N: 5}, {K: "settotal", N: -1, F: true}, {K: "cur"}, {K: "settotal", N: -1}}},
 	}
 	for _, al := range alphas {
 		n := len(al.ops)
@@ -310,6 +311,20 @@ func c10RacePrograms(tier string) []*Spec {
 			sp.Clients = [][]Op{mut, {{K: "incr", B: 1, N: 1}, {K: "get", B: 0}, {K: "incr", B: 1, N: 4}}}
 			if rf == "manual" {
 				sp.Clients = append(sp.Clients, []Op{{K: "refresh"}, {K: "refresh"}, {K: "refresh"}, {K: "refresh"}})
+			}
+			out = append(out, sp)
+		}
+		// several bars, each with its own instance of the built-in size decorators, rendered in the same cycles
+		{
+			sp := &Spec{Name: "c10r-sizes", Refresh: rf, Q: -1}
+			for i := 0; i < 3; i++ {
+				sp.Bars = append(sp.Bars, BarSpec{Total: 3 << 20, Pre: []DecorSpec{{Builtin: "counterskib"}}, App: []DecorSpec{{Builtin: "counterskb"}, {Builtin: "percentage"}}})
+				sp.Main = append(sp.Main, Op{K: "add", B: i})
+				ops := []Op{{K: "incr", B: i, N: 1 << 20}, {K: "incr", B: i, N: 2 << 20}}
+				if rf == "manual" {
+					ops = append(ops, Op{K: "refresh"}, Op{K: "refresh"})
+				}
+				sp.Clients = append(sp.Clients, ops)
 			}
 			out = append(out, sp)
 		}
